@@ -187,7 +187,7 @@ def is_nontrivial(case, want):
 
 def plan(tier, seed, excl):
     t = [('catalogue', {'shard': i, 'of': 16}) for i in range(16)]
-    n = 4000 if tier == 'quick' else 100000
+    n = 12000 if tier == 'quick' else 100000
     t += [('random', {'shard': i, 'n': n}) for i in range(8)]
     return t
 
